@@ -260,6 +260,14 @@ static void do_chained(uint64_t v) {
         gret = (int)varintChained_getVarint32(d, v32);
         rt_emit("chained", "_putVarint32", "_getVarint32", v, 0, cur_off,
                 "fwd", pret, gret, v32);
+        /* the out-of-line 32-bit reader (documented as: the single-byte
+         * case has already been handled by the macro) */
+        if (v >= 128) {
+            v32 = 0;
+            gret = (int)varintChainedGetVarint32(d, &v32);
+            rt_emit("chained", "_putVarint32", "GetVarint32", v, 0, cur_off,
+                    "fwd", pret, gret, v32);
+        }
     }
 
     d = win_prep();
